@@ -104,6 +104,47 @@ def c01(tier, seed, t0):
                                  "CLI clause (verdict line / exit status) is C04's subject; here: File.errors after Registry.run"])
 
 
+def relations(prop, tier, seed, t0, what, bounds_extra):
+    from harness import relations as H
+    n = int(os.environ.get("VERIF_N", 0)) or ({"C18": 40, "C17": 40, "C19": 24}[prop] if tier == "quick" else {"C18": 400, "C17": 400, "C19": 240}[prop])
+    budget = 150 if tier == "quick" else 2400
+    res = R.run_pool(H.HNAME, H.chunks(prop, tier, n), budget, seed, tier,
+                     extra=dict(sample_rate=0.1 if tier == "quick" else 0.03, chunk_time=60 if tier == "quick" else 200,
+                                max_slots=3 if tier == "quick" else 4))
+    agg = R.merge(res)
+    bounds = dict(program_instances=n, generator="harness/families.py", **bounds_extra)
+    return R.report(prop, H.HNAME, tier, seed, agg, t0, bounds, functions=PIPE_FUNCS, assumptions=[what])
+
+
+@register("C18")
+def c18(tier, seed, t0):
+    return relations("C18", tier, seed, t0,
+                     "lemma L4: the explored paths partition the class of consistent renamings; identical outcome on every path = identical for every pair",
+                     dict(symbolic="every user identifier (locals, params, functions, macros, include paths, g_/t_/s_/u_/e_ suffixes), consistent by construction",
+                          classes="length and naming class kept; != C keywords (own list), NULL, environ, defined, __attribute__, main",
+                          first_letter="all but 2 identifiers per instance avoid l/u/L/U (rotating)",
+                          outside="violating variants (added with C02), identifiers longer than 6 (quick) / 10 (thorough)"))
+
+
+@register("C17")
+def c17(tier, seed, t0):
+    return relations("C17", tier, seed, t0,
+                     "lemma L4 over comment / string / char contents drawn from the code-like alphabet (no backslash, newline, closing delimiter)",
+                     dict(symbolic="contents of <=3 (quick) / 4 (thorough) comment, string and character-constant slots per file",
+                          alphabet="A-Za-z0-9 space _+-*/%<>=!&|^~?:;,.(){}[]#@$ and the other kind of quote",
+                          comment_positions="own line at file level (block, //, multi-line), end of line after globals/prototypes/includes/defines, one variant inside a function",
+                          outside="42 header comment, #include strings, tabs in replacement text, content longer than 5"))
+
+
+@register("C19")
+def c19(tier, seed, t0):
+    return relations("C19", tier, seed, t0,
+                     "two runs per path class on the same symbolic slots: base file and file with the insertion; expected = shifted diagnostics",
+                     dict(modes="header (11 lines in front of the headerless file), comment line at a top-level boundary, appended conforming function",
+                          symbolic="identifier and numeric slots of both files (shared), comment content",
+                          outside="files ending without newline; insertion inside definitions"))
+
+
 def main():
     ap = argparse.ArgumentParser()
     ap.add_argument("prop")
